@@ -18,7 +18,139 @@ func init() { register("C07", runC07) }
 
 type wk struct{ Key, ID int }
 
+// c07sweep: ALL histories of up to 5 calls over {Add 0/1/2, Remove 0/1/2, RemoveAt(0),
+// RemoveAt(Len-1)} after NewSorted over one of 8 tiny inputs (nil, empty, one value,
+// ordered / unordered pairs, duplicates), judged after every call: returned positions,
+// Index/Contains over 0..3, Len, contents.
+func c07sweep(c *core.Ctx, which int) {
+	inputs := [][]int{nil, {}, {1}, {2, 0}, {1, 1}, {0, 2, 1}, {2, 2, 0}, {0, 1, 2}}
+	input := inputs[which]
+	const nOps = 8
+	histories := 0
+	for L := 0; L <= 5; L++ {
+		total := 1
+		for i := 0; i < L; i++ {
+			total *= nOps
+		}
+		for code := 0; code < total; code++ {
+			in := append([]int(nil), input...)
+			if input == nil {
+				in = nil
+			}
+			s := slices.NewSorted(in, func(a, b int) bool { return a < b })
+			model := append([]int(nil), input...)
+			sort.Ints(model)
+			hist := []string{fmt.Sprintf("NewSorted(%v)", input)}
+			fail := func(sig, msg string) {
+				c.Violate("sweep:"+sig, fmt.Sprintf("%s [exhaustive sweep, history %v]", msg, hist), map[string]any{"history": hist})
+			}
+			judge := func() bool {
+				if s.Len() != len(model) {
+					fail("Len", fmt.Sprintf("Len()=%d, model %v", s.Len(), model))
+					return false
+				}
+				for i, v := range model {
+					if g := s.Get(i); g != v {
+						fail("contents", fmt.Sprintf("Get(%d)=%d, model %v", i, g, model))
+						return false
+					}
+				}
+				for v := 0; v <= 3; v++ {
+					want := -1
+					for i, x := range model {
+						if x == v {
+							want = i
+							break
+						}
+					}
+					if g := s.Index(v); g != want || s.Contains(v) != (want >= 0) {
+						fail("Index", fmt.Sprintf("Index(%d)=%d Contains=%v, model %v", v, g, s.Contains(v), model))
+						return false
+					}
+				}
+				if !eqSlice(in, input) {
+					fail("input-modified", fmt.Sprintf("the caller's input slice is now %v", in))
+					return false
+				}
+				return true
+			}
+			if !judge() {
+				return
+			}
+			for x, k := code, 0; k < L; k++ {
+				op := x % nOps
+				x /= nOps
+				var p bool
+				var pv any
+				switch {
+				case op < 3:
+					hist = append(hist, fmt.Sprintf("Add(%d)", op))
+					var idx int
+					p, pv = core.Catch(func() { idx = s.Add(op) })
+					i := sort.SearchInts(model, op)
+					model = append(model[:i:i], append([]int{op}, model[i:]...)...)
+					if !p && (idx < 0 || idx >= len(model) || model[idx] != op) {
+						fail("Add:returned-index", fmt.Sprintf("Add(%d) returned %d, contents now %v", op, idx, model))
+						return
+					}
+				case op < 6:
+					v := op - 3
+					hist = append(hist, fmt.Sprintf("Remove(%d)", v))
+					i := sort.SearchInts(model, v)
+					want := -1
+					if i < len(model) && model[i] == v {
+						want = i
+					}
+					var idx int
+					p, pv = core.Catch(func() { idx = s.Remove(v) })
+					if !p && (want < 0) != (idx < 0) || (!p && idx >= 0 && (idx >= len(model) || model[idx] != v)) {
+						fail("Remove:returned-index", fmt.Sprintf("Remove(%d) returned %d, contents before %v", v, idx, model))
+						return
+					}
+					if want >= 0 {
+						model = append(model[:want:want], model[want+1:]...)
+					}
+				default:
+					at := 0
+					if op == 7 {
+						at = len(model) - 1
+					}
+					hist = append(hist, fmt.Sprintf("RemoveAt(%d)", at))
+					p, pv = core.Catch(func() { s.RemoveAt(at) })
+					if len(model) == 0 {
+						if !p {
+							fail("RemoveAt:no-panic", "RemoveAt on an empty Sorted did not panic")
+							return
+						}
+						p = false
+					} else {
+						model = append(model[:at:at], model[at+1:]...)
+					}
+				}
+				if p {
+					fail("panic", fmt.Sprintf("the last call panicked: %v", pv))
+					return
+				}
+				if !judge() {
+					return
+				}
+			}
+			histories++
+		}
+	}
+	c.Count("exhaustive_sweep_histories", int64(histories))
+	c.Count("exhaustive_sweeps_completed", 1)
+	c.NonTrivial(core.Mix(7, uint64(which), 0x5eeb))
+	if c.WantSample() {
+		c.Sample(map[string]any{"systematic": true, "initial_input": fmt.Sprint(input), "histories_enumerated": histories, "what": "all histories of length <= 5 over 8 calls"})
+	}
+}
+
 func runC07(c *core.Ctx) {
+	if c.Index < 8 {
+		c07sweep(c, int(c.Index))
+		return
+	}
 	switch c.R.Intn(8) {
 	case 6: // elements of 96 bytes (size-dependent copy or search paths)
 		sortedStrict(c, "[12]int64", func(r *core.Rand) [12]int64 { v := int64(r.Intn(30)); return [12]int64{0: v / 5, 5: v % 5, 11: -v} },
